@@ -143,7 +143,7 @@ class Printer:
             self.arm(head, blk, ind + 1)
     def arm(self, head, blk, ind):
         if len(blk) == 1 and self.is_simple(blk[0]) and not self.flip("arm_block", 0.4):
-            self.emit(head + " " + self.expr(blk[0], 0), ind)
+            self.emit(head + " " + self.expr(blk[0], 1 if head == "else" else 0), ind)
         else:
             self.emit(head, ind)
             self.block(blk, ind + 1)
@@ -160,7 +160,7 @@ class Printer:
             self.arm(head, blk, ind + 1)
     def pattern(self, p):
         k = p[0]
-        if k == "plit": return self.expr(p[1], 10)
+        if k == "plit": return self.expr(p[1], 0)
         if k == "var": return p[1] + (": " + p[2] if len(p) > 2 and p[2] else "")
         if k == "ignore": return "_" + (": " + p[1] if len(p) > 1 and p[1] else "")
         if k == "rest": return (p[1] or "") + "..."
